@@ -897,7 +897,8 @@ func (p *Proc) frameGoals(st *State, allowed map[string][]*Term, whole map[strin
 		if only != nil && !only[k] {
 			continue
 		}
-		if k == "AL:" || p.wholePrefix(whole, k) || whole[k] || strings.HasPrefix(k, "IF:") || strings.HasPrefix(k, "G:$") {
+		if k == "AL:" || p.wholePrefix(whole, k) || whole[k] || strings.HasPrefix(k, "IF:") || strings.HasPrefix(k, "G:$") || strings.Contains(k, "_fnlocal_") {
+			// (fields of function-local types are invisible to every caller)
 			continue
 		}
 		now := st.heap[k]
